@@ -1932,7 +1932,9 @@ func (r stack) assembleStringStack(str []string, ot string, oc stackType) string
 	builder := newStringBuilder()
 
 	if r.positive(lonce) {
-		if oc != list {
+		// no values, no operator: an empty stack
+		// must not leave a dangling operator behind
+		if oc != list && len(str) > 0 {
 			builder.WriteString(ot)
 		}
 		for _, val := range str {
